@@ -38,6 +38,7 @@ CONSTANTS
   MaxPauses,      \* bound on operator pause / unpause rounds
   MaxRestarts,    \* bound on operator RestartStage requests
   MaxRegions,     \* bound on CancelRegion requests
+  MaxFaults,      \* bound on injected failures of the durable duplicate look-up
   SplitSweep,     \* TRUE: a recovery sweep may run CONCURRENTLY with the handlers (read / look up / push as separate steps)
   TrustNegative   \* dedup_trust_negative_cache: a negative answer of an authoritative filter skips the durable check
 
@@ -234,7 +235,7 @@ StageRow0 == [status |-> "NOT_STARTED", ver |-> 0, started |-> FALSE, fired |-> 
 TaskRow0  == [status |-> "NOT_STARTED", ver |-> 0, prog |-> 0, seen |-> {}]   \* seen: signal names a suspending task has counted
 SwIdle    == [phase |-> "idle", rows |-> [wf |-> [status |-> "", canceled |-> FALSE], st |-> <<>>, tk |-> <<>>], msgs |-> <<>>]
 Cnt0      == [crashes |-> 0, withheld |-> 0, sweeps |-> 0, cancels |-> 0, signals |-> 0, early |-> 0,
-              pauses |-> 0, unpauses |-> 0, restarts |-> 0, regions |-> 0, needSweep |-> FALSE, sw |-> SwIdle]
+              pauses |-> 0, unpauses |-> 0, restarts |-> 0, regions |-> 0, faults |-> 0, needSweep |-> FALSE, sw |-> SwIdle]
 
 Init ==
   /\ wf = [status |-> "NOT_STARTED", canceled |-> FALSE]
@@ -284,6 +285,12 @@ Dedup ==
   /\ SetWk(IF wk.mid \in done THEN "ack" ELSE "handle")
   /\ LabelN(IF wk.mid \in done THEN "DedupSkip" ELSE "DedupNew")
   /\ UNCHANGED <<durable, ledger, gh, cnt>>
+
+DedupFault ==   \* the durable duplicate look-up itself fails (a momentarily locked database): the handler is NOT entered -
+  /\ wk.pc = "polled" /\ cnt.faults < MaxFaults      \* the error leaves the processor like a handler error (reschedule)
+  /\ SetWk("failed") /\ LabelN("DedupFault")
+  /\ cnt' = [cnt EXCEPT !.faults = @ + 1]
+  /\ UNCHANGED <<durable, ledger, gh>>
 
 HRet ==    \* the handler returned; only legal after its last commit or on a no-commit branch
   /\ wk.pc = "hdone"
@@ -1134,7 +1141,7 @@ Environment ==
   \/ PauseWorkflow \/ Unpause \/ (\E s \in TopLevel : SendRestart(s))
   \/ \E r \in {P.region[s] : s \in Stages} : SendCancelRegion(r)
 
-Processor == (\E m \in q : Poll(m)) \/ Dedup \/ DedupTrusted \/ HRet \/ PostMark \/ Ack \/ Withhold \/ HRaise \/ Reschedule
+Processor == (\E m \in q : Poll(m)) \/ Dedup \/ DedupTrusted \/ DedupFault \/ HRet \/ PostMark \/ Ack \/ Withhold \/ HRaise \/ Reschedule
 
 Next == Processor \/ Handlers \/ Environment
 Spec == Init /\ [][Next]_vars
